@@ -825,6 +825,8 @@ impl<B> Flow<B, Redirect> {
         }
         request.unset_header("cookie")?;
         request.unset_header("content-length")?;
+        // The host header is derived from the new uri.
+        request.unset_header("host")?;
 
         // TODO(martin): clear out unwanted headers
 
